@@ -29,7 +29,9 @@ def gen(rng):
     # 2 plain, behind another positive response which decodes the same reply but lacks the parameter; 3 inside the
     # items of an end-of-PDU field (any item may match, none if the field is empty)
     # 4 inside a structure inside a structure (a path of three names)
-    svcs = [dict(j=j + 1, shape=rng.choice([0, 0, 1, 2, 3, 4])) for j in range(nsvc)]
+    # 5 the response code of a GLOBAL-NEG-RESPONSE of the layer, the service having a NEG-RESPONSE of its own which lacks
+    # the parameter
+    svcs = [dict(j=j + 1, shape=rng.choice([0, 0, 1, 2, 3, 4, 5])) for j in range(nsvc)]
     flavour = rng.choice(["ecu", "ecu", "base"])
     nvar = rng.choice([0, 1, 2, 3, 4])
     variants = []
@@ -47,7 +49,17 @@ def gen(rng):
     # ECU variants may define their own identification services (same names, same request bytes) whose
     # responses carry the value one byte later
     layouts = [rng.choice([0, 0, 1]) if flavour == "ecu" else 0 for _ in range(nvar)]
-    return dict(flavour=flavour, services=svcs, variants=variants, layouts=layouts)
+    # short names of the identification services: plain, starting with a digit (legal in ODX), or names of list methods
+    return dict(flavour=flavour, services=svcs, variants=variants, layouts=layouts, names=rng.choice([0, 0, 1, 2]))
+
+
+def svc_name(case, j):
+    st = case.get("names", 0)
+    if st == 1:
+        return f"22F19{j}_ReadIdent"
+    if st == 2:
+        return ["count", "index", "pop"][j - 1]
+    return f"ident{j}"
 
 
 def emit(case):
@@ -63,7 +75,8 @@ def emit(case):
            1: '<PARAM xsi:type="VALUE"><SHORT-NAME>data</SHORT-NAME><DOP-REF ID-REF="BV.st"/></PARAM>',
            2: '<PARAM xsi:type="VALUE"><SHORT-NAME>id</SHORT-NAME><DOP-REF ID-REF="BV.dop"/></PARAM>',
            3: '<PARAM xsi:type="VALUE"><SHORT-NAME>items</SHORT-NAME><DOP-REF ID-REF="BV.eop"/></PARAM>',
-           4: '<PARAM xsi:type="VALUE"><SHORT-NAME>data</SHORT-NAME><DOP-REF ID-REF="BV.st2"/></PARAM>'}
+           4: '<PARAM xsi:type="VALUE"><SHORT-NAME>data</SHORT-NAME><DOP-REF ID-REF="BV.st2"/></PARAM>',
+           5: '<PARAM xsi:type="VALUE"><SHORT-NAME>id</SHORT-NAME><DOP-REF ID-REF="BV.dop"/></PARAM>'}
     OTHER = '<PARAM xsi:type="VALUE"><SHORT-NAME>other</SHORT-NAME><DOP-REF ID-REF="BV.dop"/></PARAM>'
 
     def responses(pre, j, shape, lead=""):
@@ -78,12 +91,16 @@ def emit(case):
                 f'{const("b", j)}{lead}{VAL[shape]}</PARAMS></POS-RESPONSE>')
         return refs, res
 
-    svc = reqs = resps = ""
+    svc = reqs = resps = negs = ""
     for s in case["services"]:
         j = s["j"]
         refs, res = responses("BV", j, s["shape"])
-        svc += (f'<DIAG-SERVICE ID="BV.svc{j}"><SHORT-NAME>ident{j}</SHORT-NAME><REQUEST-REF ID-REF="BV.rq{j}"/>'
-                f'<POS-RESPONSE-REFS>{refs}</POS-RESPONSE-REFS></DIAG-SERVICE>')
+        nrefs = f'<NEG-RESPONSE-REFS><NEG-RESPONSE-REF ID-REF="BV.nr{j}"/></NEG-RESPONSE-REFS>' if s["shape"] == 5 else ""
+        if s["shape"] == 5:
+            negs += (f'<NEG-RESPONSE ID="BV.nr{j}"><SHORT-NAME>nr{j}</SHORT-NAME><PARAMS>{const("sid", 0x7F)}{const("rq", 0x22)}'
+                     f'{const("code", 0x31)}</PARAMS></NEG-RESPONSE>')
+        svc += (f'<DIAG-SERVICE ID="BV.svc{j}"><SHORT-NAME>{svc_name(case, j)}</SHORT-NAME><REQUEST-REF ID-REF="BV.rq{j}"/>'
+                f'<POS-RESPONSE-REFS>{refs}</POS-RESPONSE-REFS>{nrefs}</DIAG-SERVICE>')
         reqs += (f'<REQUEST ID="BV.rq{j}"><SHORT-NAME>rq{j}</SHORT-NAME><PARAMS>{const("sid", 0x22)}{const("a", 0xF1)}{const("b", j)}</PARAMS></REQUEST>')
         resps += res
 
@@ -91,12 +108,17 @@ def emit(case):
         shape = next(s["shape"] for s in case["services"] if s["j"] == p["svc"])
         out = {0: '<OUT-PARAM-IF-SNREF SHORT-NAME="id"/>', 1: '<OUT-PARAM-IF-SNPATHREF SHORT-NAME-PATH="data.id"/>',
                2: '<OUT-PARAM-IF-SNREF SHORT-NAME="id"/>', 3: '<OUT-PARAM-IF-SNPATHREF SHORT-NAME-PATH="items.id"/>',
-               4: '<OUT-PARAM-IF-SNPATHREF SHORT-NAME-PATH="data.inner.id"/>'}[shape]
+               4: '<OUT-PARAM-IF-SNPATHREF SHORT-NAME-PATH="data.inner.id"/>',
+               5: '<OUT-PARAM-IF-SNREF SHORT-NAME="nrc"/>'}[shape]
         phys = "" if tag == "MATCHING-PARAMETER" else f"<USE-PHYSICAL-ADDRESSING>{'true' if p['phys'] else 'false'}</USE-PHYSICAL-ADDRESSING>"
-        return (f'<{tag}><EXPECTED-VALUE>{p["expected"]}</EXPECTED-VALUE><DIAG-COMM-SNREF SHORT-NAME="ident{p["svc"]}"/>{out}{phys}</{tag}>')
+        return (f'<{tag}><EXPECTED-VALUE>{p["expected"]}</EXPECTED-VALUE><DIAG-COMM-SNREF SHORT-NAME="{svc_name(case, p["svc"])}"/>{out}{phys}</{tag}>')
 
     body = (f'<DIAG-DATA-DICTIONARY-SPEC><DATA-OBJECT-PROPS>{dops}</DATA-OBJECT-PROPS><STRUCTURES>{structs}</STRUCTURES>{fields}</DIAG-DATA-DICTIONARY-SPEC>'
-            f'<DIAG-COMMS>{svc}</DIAG-COMMS><REQUESTS>{reqs}</REQUESTS><POS-RESPONSES>{resps}</POS-RESPONSES>')
+            f'<DIAG-COMMS>{svc}</DIAG-COMMS><REQUESTS>{reqs}</REQUESTS><POS-RESPONSES>{resps}</POS-RESPONSES>'
+            + (f'<NEG-RESPONSES>{negs}</NEG-RESPONSES>' if negs else "") +
+            (f'<GLOBAL-NEG-RESPONSES><GLOBAL-NEG-RESPONSE ID="BV.gnr"><SHORT-NAME>gnr</SHORT-NAME><PARAMS>{const("sid", 0x7F)}{const("rq", 0x22)}'
+             '<PARAM xsi:type="VALUE"><SHORT-NAME>nrc</SHORT-NAME><DOP-REF ID-REF="BV.dop"/></PARAM></PARAMS></GLOBAL-NEG-RESPONSE>'
+             '</GLOBAL-NEG-RESPONSES>' if any(s["shape"] == 5 for s in case["services"]) else ""))
     if case["flavour"] == "ecu":
         evs = ""
         for i, pats in enumerate(case["variants"]):
@@ -109,7 +131,7 @@ def emit(case):
                     j = s["j"]
                     rev = '<PARAM xsi:type="VALUE"><SHORT-NAME>rev</SHORT-NAME><DOP-REF ID-REF="BV.dop"/></PARAM>'
                     refs, res = responses(f"EV{i}", j, s["shape"], rev)
-                    lsvc += (f'<DIAG-SERVICE ID="EV{i}.svc{j}"><SHORT-NAME>ident{j}</SHORT-NAME><REQUEST-REF ID-REF="EV{i}.rq{j}"/>'
+                    lsvc += (f'<DIAG-SERVICE ID="EV{i}.svc{j}"><SHORT-NAME>{svc_name(case, j)}</SHORT-NAME><REQUEST-REF ID-REF="EV{i}.rq{j}"/>'
                              f'<POS-RESPONSE-REFS>{refs}</POS-RESPONSE-REFS></DIAG-SERVICE>')
                     lreq += (f'<REQUEST ID="EV{i}.rq{j}"><SHORT-NAME>rq{j}</SHORT-NAME><PARAMS>{const("sid", 0x22)}{const("a", 0xF1)}{const("b", j)}</PARAMS></REQUEST>')
                     lres += res
@@ -137,6 +159,8 @@ def ref_match(p, resp, layout=0, shape=0):
     """independent reference: does the response satisfy the matching parameter?
     (a CODED-CONST mismatch only warns, so only the length and the value byte count)"""
     k = 3 + layout
+    if shape == 5:  # 7F <sid> <response code>, read through the global negative response
+        return len(resp) >= 3 and str(resp[2]) == p["expected"]
     if shape == 3:  # a field of one-byte items behind the constants: any item
         return len(resp) >= k and any(str(b) == p["expected"] for b in resp[k:])
     return len(resp) > k and str(resp[k]) == p["expected"]
@@ -151,11 +175,13 @@ def run_impl(case, db, ecu, use_cache):
     cands = [db.diag_layers[f"EV{i}"] for i in range(len(case["variants"]))]
     m = VariantMatcher(cands, use_cache=use_cache)
     issued = []
+    buf = bytearray()  # the tester's receive buffer, re-used for every reply
 
     def go():
         for phys, rq in m.request_loop():
             issued.append(bytes(rq))
-            m.evaluate(ecu[bytes(rq)])
+            buf[:] = ecu[bytes(rq)]
+            m.evaluate(buf)
         return m.has_match(), (None if m.matching_variant is None else m.matching_variant.short_name)
 
     r, e, _ = cc.guarded(go, timeout=10)
@@ -182,7 +208,7 @@ def main(argv=None):
             # every response function over a small alphabet of answers (exhaustive for <= 2 services)
             answers = lambda j: [bytes([0x62, 0xF1, j, 1, 2]), bytes([0x62, 0xF1, j, 2, 1]), bytes([0x62, 0xF1, j, 0, 0]),
                                  bytes([0x62, 0xF1, j, 0]), bytes([0x7F, 0x22, 0x31]), b"", bytes([0x7F, 0x22, 0x31, 0x02, 0x00]),
-                                 bytes([0x62, 0xF1, j])]
+                                 bytes([0x62, 0xF1, j]), bytes([0x7F, 0x22, 0x01]), bytes([0x7F, 0x22, 0x02, 0x01])]
             combos = list(itertools.product(*[answers(s["j"]) for s in c["services"]]))
             if len(combos) > (36 if quick else 216):
                 combos = rng.sample(combos, 36 if quick else 216)
